@@ -206,6 +206,9 @@ def corpus_for_memory_checks(quick):
     for s in ["", "Rf", "Sg(CH3)4", "(Rf)2", "H2Db", "0", "h2o", "H2O)", "(H2O", "H()", "()", "H2..5", "H0", "(H)0", "H2.5.5", "Uu", "H2(O", ")H(",
               "Ca(OH)2(Xx)", "(NH4)2(SO4)1.2.3", "Ca5(PO4)3(OHh)", "K((OH)2(Zz))", "(H2)2(O)0", "(A)2(B)3(C)4", "((H2)2(Xx))3"]:
         out.add(s.encode())
+    import domains
+    for s in domains.wide_formulas() + domains.parser_fault_strings() + domains.subscript_edge_formulas() + domains.short_strings(4 if quick else 5):
+        out.add(s.encode())
     return sorted(out)
 
 
@@ -291,6 +294,8 @@ def run(ctx, B):
         strings.append((t, "short"))
     for t in domains.subscript_edge_formulas():
         strings.append((t, "subscript-edge"))
+    for t in domains.wide_formulas():
+        strings.append((t, "wide"))
     # 6. two independent causes of rejection in one string (a second error must not be stored over the first one)
     for t in domains.parser_fault_strings():
         strings.append((t, "doublefault"))
